@@ -28,6 +28,8 @@ def classify(ctx, exc, origin):
     mod = of.split(":")[0]
     if kind == "yield":
         return "T", "thrown into a context manager by its caller"
+    if kind == "dbwrite":
+        return "F", "failure of a write to the caller-supplied db object (fault, not a property of the trie)"
     if kind == "raise" and mod == VALIDATION_MOD and exc.endswith("ValidationError"):
         return "V", "argument validation (%s)" % of.split(":")[1]
     if kind == "raise" and mod == "trie.exceptions" and of.endswith(".__init__"):
